@@ -694,6 +694,7 @@ func replayPrefix(args []string) error {
 
 var urlTokenChar = map[string]string{
 	"SPC": " ", "AMP": "&", "LT": "<", "GT": ">", "DQ": `"`, "BS": `\`, "NA": "\u00E9", "C1": "\x01", "LS": "\u2028", "PS": "\u2029",
+	"AP": "\U0001F600", "AN": "\U000E0067", "AX": "\U0010FFFD", "ZW": "\u200B", "BOM": "\uFEFF", "NEL": "\u0085",
 }
 
 func urlJoin(toks []string) (string, error) {
@@ -1026,7 +1027,9 @@ func recordURL(args []string) error {
 	}
 	rng := vh.Rand(143)
 	pick := func(xs []string) string { return xs[rng.IntN(len(xs))] }
-	special := []string{"&", "<", ">", `"`, `\`, " ", "\u00E9", "\u4E16", "\u2028", "\u2029", "%20", "%2F", "%26", "%3C", "%22", "%5C", "%C3%A9", "%e2%80%a8", "'", "+", "=", ";", "@", ":", "/", "?", "#", "%", "\x01", "\x7f", "\t", "{", "}", "|", "^", "`", "~", "[", "]", "*", "\U0001F600"}
+	special := []string{"\U000E0067", "\U000E007F", "\U000F0000", "\U0010FFFD", "\U0010FFFF", "\U0003FFFE", "\U0001F3F4", "\U0001F600",
+		"\u200B", "\uFEFF", "\u2029", "\u0085", "\u009F", "\uFFFE", "\uE000", "\u0378",
+		"&", "<", ">", `"`, `\`, " ", "\u00E9", "\u4E16", "\u2028", "\u2029", "%20", "%2F", "%26", "%3C", "%22", "%5C", "%C3%A9", "%e2%80%a8", "'", "+", "=", ";", "@", ":", "/", "?", "#", "%", "\x01", "\x7f", "\t", "{", "}", "|", "^", "`", "~", "[", "]", "*", "\U0001F600"}
 	word := func(pSpecial float64, maxN int) string {
 		var b strings.Builder
 		for k := 1 + rng.IntN(maxN); k > 0; k-- {
